@@ -102,6 +102,7 @@ type VC struct {
 	inTypeInv   bool
 	compLeafT   map[string]types.Type
 	loopIndex   map[ast.Node]int
+	axiomsLoaded bool
 	frameTargets map[string][]string
 	frameWhole  bool
 	epochAlloc  map[int]string
@@ -280,7 +281,7 @@ func (vc *VC) heapSymWF(sym, comp, sort, alloc string) {
 		facts = append(facts, smtOr(smtEq(cell, "0"), sel(alloc, cell)))
 	case strings.HasSuffix(comp, "#len"), strings.HasSuffix(comp, "#off"), strings.HasSuffix(comp, "#cap"):
 		facts = append(facts, app("<=", "0", cell, "2305843009213693952"))
-	case T != nil && isPointer(T):
+	case T != nil && isRef(T):
 		facts = append(facts, smtOr(smtEq(cell, "0"), sel(alloc, cell)))
 	case T != nil:
 		if lo, hi, ok := intRange(T); ok {
@@ -428,7 +429,7 @@ func (vc *VC) assumeTyped(st *State, v *Value) {
 	if lo, hi, ok := intRange(v.T); ok {
 		st.assume(app("<=", lo, v.Term, hi))
 	}
-	if isPointer(v.T) {
+	if isRef(v.T) {
 		// every reachable pointer is nil or allocated
 		st.assume(smtOr(smtEq(v.Term, "0"), sel(st.alloc, v.Term)))
 	}
